@@ -39,6 +39,22 @@ claim("C11",
       "TLA+ specification over the dumped configuration, exhaustive TLC audit + TLC-generated words replayed into the code + TLC trace validation",
       "DESIGN.md section 4 C11")
 
+claim("C09",
+      "Purity.tla models threads running programs of library calls over shared constants; TLC proves the non-interference "
+      "theorem on the intended model (no action writes a constant => every interleaving gives every call the result of its "
+      "first evaluation; every call returns) and must refute it on the as-built write sets (anti-vacuity). TLC then generates "
+      "schedules (all single-thread programs to the bound over 16 call classes, all 2-thread interleavings over 5 classes, "
+      "simulated programs up to 50 calls); the driver runs them, plus free-running 2..8 real threads, on the real library with "
+      "the guarded write barrier of geodepy/constants.py on, and Trace_Purity.tla validates each history: a write to any shipped "
+      "constant has no action in the specification (rejected, naming object.attribute, even if transient), arguments and the "
+      "deep snapshot of all module-level constants unchanged, results bit-identical to the first evaluation of the same call.",
+      "Trusted: TLC; the write barrier (one guarded add-only hook) sees writes through __setattr__ only, direct __dict__ "
+      "mutation only as a net change in the snapshot; interleaving inside a call is left to CPython (switch interval 1 us); "
+      "the call alphabet is 129 concrete calls of the public API with fixed valid arguments, not every argument value.",
+      "TLA+ model of threads/calls/shared constants checked by TLC (theorem + as-built refutation), TLC-generated schedules "
+      "replayed on real threads with a write-barrier hook, TLC trace validation",
+      "DESIGN.md section 4 C09")
+
 NOT_YET = "check not built yet in this session (work in progress; see DESIGN.md section 8 for build order)"
 
 
